@@ -3,6 +3,7 @@
 //! `record` drives the real code and writes ndjson events for TLC trace validation.
 mod cfm;
 mod chunkid;
+mod coded;
 mod common;
 mod container;
 mod datetime;
@@ -54,6 +55,7 @@ fn main() {
         "chunkid" => chunkid::run(&args),
         "search" => search::run(&args),
         "latest" => latest::run(&args),
+        "coded" => coded::run(&args),
         m => {
             eprintln!("unknown module {m}");
             std::process::exit(2);
